@@ -11,7 +11,7 @@ import (
 
 func init() {
 	props["C17"] = c17
-	floors["C17"] = map[string]int{"C17.R1": 17, "C17.R2": 4, "C17.R3": 2, "C17.R4": 4, "C17.R5": 6}
+	floors["C17"] = map[string]int{"C17.R1": 17, "C17.R2": 5, "C17.R3": 2, "C17.R4": 5, "C17.R5": 6}
 }
 
 func instrOf(v ssa.Value) ssa.Instruction {
@@ -145,6 +145,23 @@ func c17(r *Report) {
 			}
 		}
 		r.Decide("path", "(*M/har.Logger).RecordRequest: the duplicate edge returns an error and modifies nothing", ok, "exists edge: error return, no map/list update", "a duplicate ID is not rejected, or the rejection has already changed the log", lookup.Pos())
+		// test and insertion form one critical section: the lock is not released in between
+		okCS := true
+		for _, in := range instrs(rr) {
+			c, isC := in.(*ssa.Call)
+			if !isC {
+				continue
+			}
+			if n := calleeName(c); n != "(*sync.Mutex).Unlock" && n != "(*sync.RWMutex).Unlock" && n != "(*sync.RWMutex).RUnlock" {
+				continue
+			}
+			afterTest := g.PathTo([]ssa.Instruction{lookup}, false, nil, func(i ssa.Instruction) bool { return i == ssa.Instruction(c) }) != nil
+			beforeIns := g.PathTo([]ssa.Instruction{c}, false, nil, isMut) != nil
+			if afterTest && beforeIns {
+				okCS = false
+			}
+		}
+		r.Decide("lockset", "(*M/har.Logger).RecordRequest: the duplicate test and the insertion share one critical section", okCS, "no unlock between the lookup and the insertion", "the lock is released between the duplicate test and the insertion: two concurrent requests with one ID are both accepted and one entry is silently lost", lookup.Pos())
 		// the key looked up is the key inserted, and the value inserted is the entry linked
 		var mu *ssa.MapUpdate
 		for _, in := range instrs(rr) {
@@ -280,6 +297,44 @@ func c17(r *Report) {
 		}
 		okC = sT != nil && sN != nil && G(er).Before(sT, sN)
 		r.Decide("path", "(*M/har.Logger).ExportAndReset: the kept entries are closed into a ring again", okC, "tail = prev; tail.next = first", "after an export-and-reset with pending entries the list is not circular: later exports loop or drop entries", er.Pos())
+		// a pending entry is linked behind the previous pending one (skipping the exported ones in between)
+		okK := false
+		for _, in := range instrs(er) {
+			st, isSt := in.(*ssa.Store)
+			if !isSt || !inLoop(st.Block()) {
+				continue
+			}
+			fa, isFa := st.Addr.(*ssa.FieldAddr)
+			if !isFa || fieldObj(fa) != fNext {
+				continue
+			}
+			// on the Response == nil edge, storing the entry under examination
+			for _, ce := range ctrlEdges(st.Block()) {
+				b, isB := ce.If.Cond.(*ssa.BinOp)
+				if !isB {
+					continue
+				}
+				other := b.X
+				if isNilConst(b.X) {
+					other = b.Y
+				} else if !isNilConst(b.Y) {
+					continue
+				}
+				ld, isLd := other.(*ssa.UnOp)
+				if !isLd {
+					continue
+				}
+				rfa, isR := ld.X.(*ssa.FieldAddr)
+				if !isR || fieldObj(rfa) != fResp {
+					continue
+				}
+				pending := (b.Op == token.NEQ && !ce.Taken) || (b.Op == token.EQL && ce.Taken)
+				if pending && st.Val == rfa.X {
+					okK = true
+				}
+			}
+		}
+		r.Decide("path", "(*M/har.Logger).ExportAndReset: a pending entry is re-linked behind the previous pending entry", okK, "prev.next = curr on the Response == nil edge", "exported entries between two pending ones stay linked: they reappear in later exports and are returned twice", er.Pos())
 		// an entry leaves the map exactly when it is exported
 		okD := false
 		for _, in := range instrs(er) {
